@@ -99,6 +99,40 @@ class _MuxFn:
         return m
 
 
+class _Wide:
+    """Observes a Value returned by a function-style helper a few bits WIDER than its own shape (signed, so that a
+    signed result is sign-extended and an unsigned one zero-extended) and records the shape of the returned Value."""
+
+    def __init__(self, ins, res):
+        from amaranth import Signal, Value, signed
+
+        self.ins = ins
+        self.res = Value.cast(res)
+        self.shape = self.res.shape()
+        self.out = Signal(signed(self.shape.width + 4), name="wide_out")
+        self.sub = None
+
+    def elaborate(self, platform):
+        from amaranth import Module
+
+        m = Module()
+        if self.sub is not None:
+            m.submodules.dut = self.sub
+        m.d.comb += self.out.eq(self.res)
+        return m
+
+
+def _shape(txt: str):
+    from amaranth import signed, unsigned
+
+    return (signed if txt[0] == "s" else unsigned)(int(txt[1:]))
+
+
+def _wide_tail(top):
+    tail = f" w={top.shape.width} sg={int(top.shape.signed)}"
+    return tail
+
+
 def _elaboratable(cls):
     from amaranth import Elaboratable
 
@@ -175,7 +209,54 @@ def _impl(comp: str, d: dict, ops: list[dict]) -> list[str]:
             out_sig = dut.output
 
         return _comb_run(dut, drive, lambda ctx: f"out={ctx.get(out_sig)}", ops)
+    if comp in ("muxz", "muxcz"):
+        from amaranth import Signal
+        from transactron.utils.amaranth_ext.functions import one_hot_mux
+
+        shps, dshp, prio = d["shp"], d["dshp"], bool(d["prio"])
+        n = len(shps)
+        if comp == "muxz":
+            sel = [Signal(name=f"sel{i}") for i in range(n)]
+            data = [Signal(_shape(t), name=f"data{i}") for i, t in enumerate(shps)]
+            dflt = Signal(_shape(dshp), name="dflt") if dshp else None
+            top = _elaboratable(_Wide)(None, one_hot_mux(list(zip(sel, data)), default=dflt, priority=prio))
+
+            def drive(ctx, op):
+                sv = int(op["s"])
+                for i, v in enumerate(_ints(op["d"])):
+                    ctx.set(sel[i], (sv >> i) & 1)
+                    ctx.set(data[i], v)
+                if dflt is not None:
+                    ctx.set(dflt, int(op["df"]))
+        else:
+            shape = _shape(shps[0] if shps else dshp)
+            dut = elaboratables.OneHotMux(shape, n, priority=prio, has_default=bool(dshp))
+            top = _elaboratable(_Wide)(None, dut.output)
+            top.sub = dut
+            ins = dut.inputs.as_value()
+
+            def drive(ctx, op):
+                ctx.set(dut.select, int(op["s"]))
+                ctx.set(ins, _pack(_ints(op["d"]), shape.width))
+                if dshp:
+                    ctx.set(dut.default_input, int(op["df"]))
+
+        tail = _wide_tail(top)
+        return _comb_run(top, drive, lambda ctx: f"out={ctx.get(top.out)}{tail}", ops)
     w = d["w"]
+    if comp in ("lsb", "ctz"):
+        from amaranth import Signal, signed
+        from transactron.utils.amaranth_ext.functions import count_trailing_zeros, extract_lowest_set_bit
+
+        x = Signal(signed(w) if d.get("sg") else w, name="x")
+        top = _elaboratable(_Wide)(None, (extract_lowest_set_bit if comp == "lsb" else count_trailing_zeros)(x))
+        tail = _wide_tail(top)
+
+        def drive(ctx, op):
+            v = int(op["x"])
+            ctx.set(x, v - (1 << w) if d.get("sg") and v >= 1 << (w - 1) else v)
+
+        return _comb_run(top, drive, lambda ctx: f"o={ctx.get(top.out)}{tail}", ops)
     if comp in ("enc", "penc"):
         dut = (coding.Encoder if comp == "enc" else coding.PriorityEncoder)(w)
         return _comb_run(dut, lambda ctx, op: ctx.set(dut.i, int(op["x"])),
@@ -219,7 +300,7 @@ def monitor(case: Case, out: list[str]):
     for idx, (line, o) in enumerate(zip(case.ops, out[1:])):
         op = _kv(line)
         if o.startswith("raise"):
-            if comp in ("mux", "muxc") and w == 0 and not d["dflt"] and o == "raise ValueError":
+            if comp in ("mux", "muxc", "muxz", "muxcz") and w == 0 and not d.get("dflt", d.get("dshp")) and o == "raise ValueError":
                 continue  # documented: no inputs and no default is rejected
             return f"{comp} {case.cfg}: real code raised on {line!r}: {o}"
         f = dict(x.split("=") for x in o.split())
@@ -261,6 +342,37 @@ def monitor(case: Case, out: list[str]):
                 continue  # several select bits without priority: undefined by the documentation
             if got != exp:
                 return f"{tag}: output={got}, expected {exp}"
+        elif comp in ("muxz", "muxcz"):
+            sv, data, got = int(op["s"]), _ints(op["d"]), int(f["out"])
+            shapes = list(d["shp"]) + ([d["dshp"]] if d["dshp"] else [])
+            if sv == 0:
+                if not d["dshp"]:
+                    continue
+                exp = int(op["df"])
+            elif d["prio"] or sv & (sv - 1) == 0:
+                exp = data[_set_bits(sv, w)[0]]
+            else:
+                continue
+            if got != exp:
+                return (f"{tag}: the returned value read {int(f['w'])}+4 bits wide is {got}, expected the selected "
+                        f"operand {exp} (operand shapes {shapes})")
+            # the shape of the returned Value must be able to represent every operand
+            rw, rs = int(f["w"]), int(f["sg"])
+            for t in shapes:
+                need = int(t[1:]) + (1 if rs and t[0] == "u" else 0)
+                if (t[0] == "s" and not rs) or rw < need:
+                    return f"{tag}: returned shape {'signed' if rs else 'unsigned'}({rw}) cannot represent operand shape {t}"
+            if comp == "muxcz" and (rw, rs) != (int(shapes[0][1:]), int(shapes[0][0] == "s")):
+                return f"{tag}: OneHotMux output shape is {'signed' if rs else 'unsigned'}({rw}), declared {shapes[0]}"
+        elif comp == "lsb":
+            x = int(op["x"])
+            if (int(f["o"]), int(f["w"]), int(f["sg"])) != (x & -x, w, 0):
+                return f"{tag}: o={f['o']} shape=({f['w']},{f['sg']}), expected {x & -x} as unsigned({w})"
+        elif comp == "ctz":
+            x = int(op["x"])
+            exp = _set_bits(x, w)[0] if x else w
+            if int(f["o"]) != exp or int(f["sg"]) != 0 or (1 << int(f["w"])) <= w:
+                return f"{tag}: o={f['o']} shape=({f['w']},{f['sg']}), expected {exp} in an unsigned value able to hold {w}"
         elif comp == "enc":
             x = int(op["x"])
             onehot = x != 0 and x & (x - 1) == 0
@@ -296,7 +408,8 @@ def monitor(case: Case, out: list[str]):
 
 NAMES = {"mpe": "MultiPriorityEncoder", "ring": "RingMultiPriorityEncoder", "ssn": "StableSelectingNetwork",
          "mux": "one_hot_mux", "muxc": "OneHotMux", "enc": "Encoder", "penc": "PriorityEncoder", "dec": "Decoder",
-         "pdec": "PriorityDecoder", "genc": "GrayEncoder", "gdec": "GrayDecoder"}
+         "pdec": "PriorityDecoder", "genc": "GrayEncoder", "gdec": "GrayDecoder", "muxz": "one_hot_mux", "muxcz": "OneHotMux",
+         "lsb": "extract_lowest_set_bit", "ctz": "count_trailing_zeros"}
 
 
 def _case(comp: str, cfg: str, ops: list[str], tag: str, **desc) -> Case:
@@ -409,6 +522,55 @@ def gen_mux(ctx: Check) -> list[Case]:
     return cases
 
 
+def _rand_in_shape(rng, t: str) -> int:
+    wd = int(t[1:])
+    if t[0] == "u":
+        return rng.randrange(1, 1 << wd) if wd else 0
+    lo, hi = -(1 << (wd - 1)), (1 << (wd - 1)) - 1
+    return rng.choice([rng.randint(lo, -1), rng.randint(lo, -1), lo, -1, rng.randint(lo, hi)])  # mostly negative
+
+
+def gen_typed(ctx: Check) -> list[Case]:
+    """signed / mixed-width operands for one_hot_mux and OneHotMux, and the other Value-returning helpers; every
+    result is observed 4 bits wider than the returned Value's own shape, whose width/signedness is recorded"""
+    rng = ctx.rng("typed")
+    cases = []
+    lists = [(["s4", "s4", "s4"], "s4"), (["u5", "s4", "s3"], "u2"), (["s8", "u3"], "s6"), (["s4"], "s5"), (["u4", "u6"], "s3")]
+    if ctx.thorough:
+        lists += [(["s2", "u1", "s7", "u7"], "u8"), (["s16"] * 5, "s16"), (["u3", "s3", "u3", "s3", "s5", "u6"], "s1"), ([], "s4")]
+    for shps, dshp in lists:
+        for prio in (0, 1):
+            for ds in (dshp, None):
+                n = len(shps)
+                if n == 0 and ds is None:
+                    continue
+                ops = []
+                for sv in range(1 << n):
+                    for _ in range(ctx.pick(3, 8)):
+                        data = [_rand_in_shape(rng, t) for t in shps]
+                        ops.append(f"in s={sv} d={_show_list(data)}" + (f" df={_rand_in_shape(rng, ds)}" if ds else ""))
+                cases.append(_case("muxz", f"prio={prio} shp={','.join(shps) or '-'} dshp={ds or '-'}", ops, "exhaustive",
+                                   w=n, shp=shps, dshp=ds, prio=prio))
+    for t, n in ctx.pick([("s4", 3), ("s6", 2)], [("s4", 3), ("s6", 2), ("s3", 5), ("s12", 4), ("s1", 2)]):
+        for prio in (0, 1):
+            for ds in (t, None):
+                ops = []
+                for sv in range(1 << n):
+                    for _ in range(ctx.pick(3, 8)):
+                        data = [_rand_in_shape(rng, t) for _ in range(n)]
+                        ops.append(f"in s={sv} d={_show_list(data)}" + (f" df={_rand_in_shape(rng, t)}" if ds else ""))
+                cases.append(_case("muxcz", f"prio={prio} shp={','.join([t] * n)} dshp={ds or '-'}", ops, "exhaustive",
+                                   w=n, shp=[t] * n, dshp=ds, prio=prio))
+    for comp in ("lsb", "ctz"):
+        for w in range(1, ctx.pick(5, 8) + 1):
+            cases.append(_case(comp, f"w={w}", [f"in x={x}" for x in range(1 << w)], "exhaustive", w=w, sg=0))
+        cases.append(_case(comp, "w=4 sg=1", [f"in x={x}" for x in range(16)], "exhaustive", w=4, sg=1))  # signed argument
+        for w in ctx.pick([13, 33], [9, 13, 16, 17, 33, 64]):
+            xs = [0, 1, 1 << (w - 1), (1 << w) - 1] + [_rand_x(rng, w) for _ in range(ctx.pick(60, 200))]
+            cases.append(_case(comp, f"w={w}", [f"in x={x}" for x in xs], "random", w=w, sg=0))
+    return cases
+
+
 def gen_coding(ctx: Check) -> list[Case]:
     rng = ctx.rng("coding")
     cases = []
@@ -453,6 +615,12 @@ def more_cases(case: Case, rng):
             elif comp == "ssn":
                 data = [rng.randrange(1, 1 << d["dw"]) for _ in range(w)]
                 ops.append(f"in d={_show_list(data)} v={_rand_x(rng, w)}")
+            elif comp in ("muxz", "muxcz"):
+                if w == 0:
+                    return
+                data = [_rand_in_shape(rng, t) for t in d["shp"]]
+                ops.append(f"in s={_rand_x(rng, w) if rng.random() < 0.8 else 0} d={_show_list(data)}"
+                           + (f" df={_rand_in_shape(rng, d['dshp'])}" if d["dshp"] else ""))
             elif comp in ("mux", "muxc"):
                 if w == 0:
                     return
@@ -481,7 +649,9 @@ def nontrivial(case: Case, out: list[str]) -> bool:
         return any(0 < bin(int(o["v"])).count("1") < w for o in ops) or w == 1
     if comp in ("mux", "muxc"):
         return any(int(o["s"]) & (int(o["s"]) - 1) for o in ops) and any(int(o["s"]) == 0 for o in ops)
-    if comp in ("enc", "penc"):
+    if comp in ("muxz", "muxcz"):  # a negative operand is selected somewhere and the select vector is multi-hot somewhere
+        return any(v < 0 for o in ops for v in _ints(o["d"])) and any(int(o["s"]) & (int(o["s"]) - 1) for o in ops)
+    if comp in ("enc", "penc", "lsb", "ctz"):
         return any(int(o["x"]) & (int(o["x"]) - 1) for o in ops)
     return len(ops) > 1
 
@@ -493,6 +663,11 @@ def _desc_from_cfg(cfg: str) -> dict:
     d = {"component": NAMES[comp], "comp": comp, "w": int(t.get("w", t.get("n", 0)))}
     if "k" in t:
         d["k"] = int(t["k"])
+    if comp in ("muxz", "muxcz"):
+        shp = [] if t.get("shp", "-") == "-" else t["shp"].split(",")
+        d.update(prio=int(t.get("prio", 0)), shp=shp, dshp=None if t.get("dshp", "-") == "-" else t["dshp"], w=len(shp))
+    if comp in ("lsb", "ctz"):
+        d["sg"] = int(t.get("sg", 0))
     if comp in ("mux", "muxc"):
         d.update(prio=int(t.get("prio", 0)), dflt=int(t.get("dflt", 0)))
     if comp in ("mux", "muxc", "ssn"):
@@ -534,7 +709,7 @@ def run(ctx: Check):
     procs = ctx.pick(1, 8)  # quick: serial (10 s of CPU; a fork pool is slower on a loaded machine)
     regression = [Case(F_B3_1_WITNESS["cfg"], list(F_B3_1_WITNESS["ops"]), _desc_from_cfg(F_B3_1_WITNESS["cfg"]), "corpus")]
     groups = [("corpus", _corpus("C38") + regression), ("mpe", gen_mpe(ctx)), ("ring", gen_ring(ctx)),
-              ("ssn", gen_ssn(ctx)), ("mux", gen_mux(ctx)), ("coding", gen_coding(ctx))]
+              ("ssn", gen_ssn(ctx)), ("mux", gen_mux(ctx)), ("typed", gen_typed(ctx)), ("coding", gen_coding(ctx))]
     only = os.environ.get("TXV_C38_GROUPS")  # debugging aid (mutation testing): restrict to some groups
     if only:
         groups = [g for g in groups if g[0] in only.split(",")]
